@@ -349,4 +349,349 @@ theorem construct_wf (T : TimeOps τ) (dt dur : τ) (incl strict param : Bool) (
         | uninit => trivial
         | zeros sh => exact ⟨by simp [freshRows], recSize_pos T _ _ _⟩
 
+
+/-- **Machine level: a temporal setter preserves the newest observations.**  From every
+well-formed state with initialised storage (any pointer, any contents), a setter that returns
+leaves storage whose newest-first reading is the old one truncated, or zero-padded at the old
+end, to the new record size `m` — i.e. `read(k)` unchanged for `1 ≤ k ≤ min(old, m)`, zero rows
+for `old < k ≤ m` — and the observation shape is unchanged. -/
+theorem setter_preserves_newest (T : TimeOps τ) (s : MState τ) (hw : MWF s) (op : Op τ)
+    (hop : op.isSetter = true) (hu : (step T s op).2 = .unit)
+    (sh : List Nat) (p : Nat) (rows : List Row) (hs : s.store = .init sh (p, rows)) :
+    ∃ m p' rows', (step T s op).1.cons.lookup 0 = some m ∧ (step T s op).1.store = .init sh (p', rows') ∧
+      Ring.newest ⟨rows'.length, p', rows'⟩ =
+        (Ring.newest ⟨rows.length, p, rows⟩ ++ List.replicate (m - rows.length) (zeroRow sh)).take m := by
+  obtain ⟨r1, r2, r3⟩ := record_step_refines T s hw op
+  obtain ⟨n, hn, hpos, hst⟩ := hw
+  rw [hs] at hst
+  obtain ⟨hlen, hp⟩ := hst
+  have hr : (⟨rows.length, p, rows⟩ : Ring Row).WF :=
+    ⟨by show 0 < rows.length; omega, by show p < rows.length; omega, rfl⟩
+  have hnl := newest_length _ hr
+  simp only at hnl
+  have habs : (sabs s).store = .init sh (Ring.newest ⟨rows.length, p, rows⟩) := by simp [sabs, hs]
+  have hn' : (sabs s).cons.lookup 0 = some (Ring.newest (⟨rows.length, p, rows⟩ : Ring Row)).length := by
+    rw [hnl, hlen]; exact hn
+  rw [r2] at hu
+  -- the specification machine's store after the setter
+  have key : ∃ m, (sstep T (sabs s) op).1.cons.lookup 0 = some m ∧
+      (sstep T (sabs s) op).1.store =
+        .init sh (specResize (Ring.newest ⟨rows.length, p, rows⟩) m (zeroRow sh)) := by
+    have hsz := setter_establishes_size T s op hop (by rw [r2]; exact hu)
+    unfold SizeOK at hsz
+    have hc : (sabs (step T s op).1).cons = (step T s op).1.cons := rfl
+    rw [← hc, r1] at hsz
+    refine ⟨_, hsz, ?_⟩
+    have hd : (sabs (step T s op).1).dt = (step T s op).1.dt := rfl
+    cases op with
+    | setDt v =>
+      simp only [sstep] at hu ⊢
+      by_cases hv : T.pos v = true
+      · simp only [hv, if_true] at hu ⊢
+        have := resizeToS_store { sabs s with dt := v } sh _ habs hn' (recSize T v (sabs s).dur (sabs s).incl)
+          hu
+        refine this.trans ?_
+        obtain ⟨_, b, c, d⟩ := resizeTo_unit { s with dt := v } (recSize T v s.dur s.incl)
+          (by have := r2; simp only [step, sstep, hv, if_true] at this; rw [this]; exact hu)
+        simp only [step, hv, if_true]
+        rw [b, c, d]; rfl
+      · simp [hv] at hu
+    | setDur v =>
+      simp only [sstep] at hu ⊢
+      by_cases hv : T.nonneg v = true
+      · simp only [hv, if_true] at hu ⊢
+        have := resizeToS_store { sabs s with dur := v } sh _ habs hn' (recSize T (sabs s).dt v (sabs s).incl)
+          hu
+        refine this.trans ?_
+        obtain ⟨_, b, c, d⟩ := resizeTo_unit { s with dur := v } (recSize T s.dt v s.incl)
+          (by have := r2; simp only [step, sstep, hv, if_true] at this; rw [this]; exact hu)
+        simp only [step, hv, if_true]
+        rw [b, c, d]; rfl
+      · simp [hv] at hu
+    | setIncl b =>
+      have e : (sabs s).dur = s.dur := rfl
+      simp only [sstep, e] at hu ⊢
+      by_cases hv : T.nonneg s.dur = true
+      · simp only [hv, if_true] at hu ⊢
+        have := resizeToS_store { sabs s with incl := b } sh _ habs hn' (recSize T (sabs s).dt s.dur b)
+          hu
+        refine this.trans ?_
+        obtain ⟨_, b', c, d⟩ := resizeTo_unit { s with incl := b } (recSize T s.dt s.dur b)
+          (by have := r2; simp only [step, sstep, e, hv, if_true] at this; rw [this]; exact hu)
+        simp only [step, hv, if_true]
+        rw [b', c, d]; rfl
+      · simp [hv] at hu
+    | recon dim size => simp [Op.isSetter] at hop
+    | push xsh x b => simp [Op.isSetter] at hop
+    | assign k => simp [Op.isSetter] at hop
+    | initz sh => simp [Op.isSetter] at hop
+  obtain ⟨m, km, ks⟩ := key
+  rw [← r1] at km ks
+  refine ⟨m, ?_⟩
+  cases hst' : (step T s op).1.store with
+  | none => simp [sabs, hst'] at ks
+  | empty => simp [sabs, hst'] at ks
+  | uninit => simp [sabs, hst'] at ks
+  | init sh' d =>
+    obtain ⟨p', rows'⟩ := d
+    simp only [sabs, hst', Store.init.injEq] at ks
+    obtain ⟨e1, e2⟩ := ks
+    subst e1
+    refine ⟨p', rows', km, rfl, ?_⟩
+    rw [e2, specResize, hnl]
+
 end InfernoVerif.Record
+
+namespace InfernoVerif.Shaped
+open InfernoVerif.Ring (Err prod slice)
+
+/-! ## Constraint bookkeeping of `ShapedTensor` -/
+
+/-- `_constraints_compatible` says exactly: enough dimensions, and every constraint names an
+existing tensor dimension (Python indexing, negative dims from the end) of the constrained size. -/
+theorem compatible_iff (sh : List Nat) (c : Cons) (strict : Bool) :
+    compatible sh c strict = true ↔
+      dimensionality c strict ≤ sh.length ∧
+      ∀ d z, (d, z) ∈ c → ∃ i, pyIdx sh.length d = some i ∧ sh[i]? = some z := by
+  unfold compatible
+  split
+  · rename_i h
+    constructor
+    · intro h'; cases h'
+    · intro ⟨h1, _⟩; omega
+  · rename_i h
+    rw [List.all_eq_true]
+    constructor
+    · intro hall
+      exact ⟨by omega, fun d z hm => (met_iff sh d z).mp (hall (d, z) hm)⟩
+    · intro ⟨_, hall⟩ p hp
+      exact (met_iff sh p.1 p.2).mpr (hall p.1 p.2 hp)
+
+/-- **A tensor reported valid satisfies every constraint** — and conversely: `valid` holds
+exactly when the value is ignored, or there are at least `dimensionality` dimensions and every
+constraint `(d, z)` names an existing tensor dimension whose size is `z`. -/
+theorem valid_iff_all_constraints (s : ShState) :
+    s.valid = true ↔
+      (s.val.ignored = true ∨
+       ∃ sh vs, s.val = .tensor sh vs ∧ dimensionality s.cons s.strict ≤ sh.length ∧
+         ∀ d z, (d, z) ∈ s.cons → ∃ i, pyIdx sh.length d = some i ∧ sh[i]? = some z) := by
+  unfold ShState.valid
+  cases hv : s.val with
+  | none => simp [Val.shape?, Val.ignored]
+  | uninit => simp [Val.shape?, Val.ignored]
+  | tensor sh vs =>
+    by_cases h0 : sh = [0]
+    · simp [Val.shape?, Val.ignored, h0]
+    · simp only [Val.shape?, Val.ignored, beq_iff_eq, h0, if_false, false_or]
+      rw [compatible_iff]
+      constructor
+      · intro ⟨h1, h2⟩; exact ⟨sh, vs, rfl, h1, h2⟩
+      · intro ⟨sh', vs', e, h1, h2⟩; cases e; exact ⟨h1, h2⟩
+
+/-- Non-strict constraints: the dimensionality guard is implied — `valid` ⇔ ignored or every
+constraint is met. -/
+theorem valid_nonstrict_iff (s : ShState) (hs : s.strict = false) :
+    s.valid = true ↔
+      (s.val.ignored = true ∨
+       ∃ sh vs, s.val = .tensor sh vs ∧
+         ∀ d z, (d, z) ∈ s.cons → ∃ i, pyIdx sh.length d = some i ∧ sh[i]? = some z) := by
+  rw [valid_iff_all_constraints]
+  constructor
+  · rintro (h | ⟨sh, vs, e, _, h2⟩)
+    · exact Or.inl h
+    · exact Or.inr ⟨sh, vs, e, h2⟩
+  · rintro (h | ⟨sh, vs, e, h2⟩)
+    · exact Or.inl h
+    · refine Or.inr ⟨sh, vs, e, ?_, h2⟩
+      obtain ⟨b1, b2⟩ := inrange_bounds (c := s.cons) (nd := sh.length)
+        (fun d z hm => let ⟨i, hi, _⟩ := h2 d z hm; ⟨i, hi⟩)
+      rw [hs]; unfold dimensionality; simp only [Bool.false_eq_true, if_false]; omega
+
+/-- The code's `valid` and the specification's reading of it (driver streams `M` and `S`) agree. -/
+theorem valid_eq_validSpec (s : ShState) : s.valid = s.validSpec := by
+  unfold ShState.valid ShState.validSpec
+  cases s.val.shape? with
+  | none => rfl
+  | some sh =>
+    simp only
+    cases hst : s.strict with
+    | true =>
+      unfold compatible dimensionality
+      simp only [if_true, Bool.not_true, Bool.false_or]
+      by_cases h : sh.length < upper s.cons + lower s.cons
+      · simp [h]; intro h'; omega
+      · simp [h]; intro h'; omega
+    | false =>
+      simp only [Bool.not_false, Bool.true_or, Bool.true_and]
+      unfold compatible
+      split
+      · rename_i h
+        -- the guard fails, so some constraint is unmet
+        cases hall : s.cons.all (met sh) with
+        | false => rfl
+        | true =>
+          exfalso
+          obtain ⟨b1, b2⟩ := inrange_bounds (c := s.cons) (nd := sh.length) (fun d z hm => by
+            have := (met_iff sh d z).mp (List.all_eq_true.mp hall (d, z) hm)
+            obtain ⟨i, hi, _⟩ := this; exact ⟨i, hi⟩)
+          unfold dimensionality at h; simp only [Bool.false_eq_true, if_false] at h; omega
+      · rfl
+
+/-- Under the dimensionality guard every constrained key indexes an existing tensor dimension
+(`shape[d]` cannot raise `IndexError`). -/
+theorem keys_in_range' {c : Cons} {strict : Bool} {nd : Nat} (hg : dimensionality c strict ≤ nd)
+    {d : Int} {z : Nat} (h : (d, z) ∈ c) : ∃ i, pyIdx nd d = some i ∧ i < nd :=
+  keys_in_range hg h
+
+/-- **Strict constraints address pairwise distinct tensor dimensions.** -/
+theorem strict_dims_distinct {c : Cons} {nd : Nat} (hg : dimensionality c true ≤ nd)
+    {d1 d2 : Int} {z1 z2 : Nat} (h1 : (d1, z1) ∈ c) (h2 : (d2, z2) ∈ c) (hne : d1 ≠ d2) :
+    pyIdx nd d1 ≠ pyIdx nd d2 :=
+  strict_dims_distinct' (by simpa [dimensionality] using hg) h1 h2 hne
+
+/-- **Adding an incompatible constraint is refused without side effects**: constraints, value,
+flags — the whole state — are unchanged and an exception is reported (`ValueError` when the
+tensor was valid, `RuntimeError` when it had been invalidated before). -/
+theorem add_incompatible_refused_no_side_effect (s : ShState) (dim : Int) (z : Int) (sh : List Nat)
+    (hnew : s.cons.lookup dim = none) (hz : 0 ≤ z) (hsh : s.val.shape? = some sh)
+    (hinc : compatible sh (s.cons.put dim z.toNat) s.strict = false) :
+    (shStep s (.recon dim (some z))).1 = s ∧
+    (shStep s (.recon dim (some z))).2 = .err (if s.valid then .ValueError else .RuntimeError) := by
+  have hz' : ¬ z < 0 := by omega
+  have hv : s.valid = compatible sh s.cons s.strict := by simp [ShState.valid, hsh]
+  by_cases hc : compatible sh s.cons s.strict = true
+  · simp [shStep, reconDecide, hnew, hz', hsh, hc, hinc, shApply, hv]
+  · simp [shStep, reconDecide, hnew, hz', hsh, hc, shApply, hv]
+
+/-- Whatever the reason an *add* raises (negative size, incompatible, invalidated), nothing changed. -/
+theorem add_error_no_side_effect (s : ShState) (dim : Int) (z : Int) (e : Err)
+    (hnew : s.cons.lookup dim = none) (he : (shStep s (.recon dim (some z))).2 = .err e) :
+    (shStep s (.recon dim (some z))).1 = s := by
+  simp only [shStep] at he ⊢
+  cases hD : reconDecide s.cons s.strict s.val.shape? dim (some z) with
+  | err e' => rfl
+  | set c' => rw [hD] at he; simp [shApply] at he
+  | setErr c' e' => obtain ⟨e1, _⟩ := decide_setErr hD; cases e1
+  | resize c' t sz =>
+    obtain ⟨_, _, _, _, _, _, _, _, _, _, e8⟩ := decide_resize hD
+    rw [hnew] at e8; cases e8
+
+/-- **Removing a constraint never alters data** (nor is any resize ever decided for a removal). -/
+theorem remove_never_alters_data (s : ShState) (dim : Int) :
+    (shStep s (.recon dim none)).1.val = s.val ∧
+    ∀ c t sz, reconDecide s.cons s.strict s.val.shape? dim none ≠ .resize c t sz := by
+  constructor
+  · simp only [shStep]
+    cases hD : reconDecide s.cons s.strict s.val.shape? dim none with
+    | err e' => rfl
+    | set c' => rfl
+    | setErr c' e' => rfl
+    | resize c' t sz => obtain ⟨_, _, e1, _⟩ := decide_resize hD; cases e1
+  · intro c t sz hD
+    obtain ⟨_, _, e1, _⟩ := decide_resize hD; cases e1
+
+/-- An *edit* touches data only through `__make_compatible` on the edited dimension, and only
+when the tensor does not already satisfy the edited constraints. -/
+theorem edit_resizes_only_edited_dim (s : ShState) (dim : Int) (z : Int) (c' : Cons) (t sz : Nat)
+    (h : reconDecide s.cons s.strict s.val.shape? dim (some z) = .resize c' t sz) :
+    ∃ sh, s.val.shape? = some sh ∧ pyIdx sh.length dim = some t ∧ sz = z.toNat ∧
+      c' = s.cons.put dim sz ∧ compatible sh c' s.strict = false := by
+  obtain ⟨z', sh, e1, _, e2, e3, e4, e5, _, e7, _⟩ := decide_resize h
+  cases e1
+  exact ⟨sh, e4, e5, e2, e3, e7⟩
+
+end InfernoVerif.Shaped
+
+
+namespace InfernoVerif.Record
+open InfernoVerif.Ring InfernoVerif.Shaped
+variable {τ : Type}
+
+/-- Record machine: removing a constraint (`RecordTensor.reconstrain(dim, None)`) never alters
+any observation — every `read(k)`, the observation shape and the storage kind are unchanged (the
+storage is only rotated by `align`). -/
+theorem record_remove_never_alters_data (T : TimeOps τ) (s : MState τ) (hw : MWF s) (dim : Int) :
+    (sabs (step T s (.recon dim none)).1).store = (sabs s).store := by
+  rw [(record_step_refines T s hw (.recon dim none)).1]
+  simp only [sstep, shapedReconS]
+  cases hD : reconDecide (sabs s).cons (sabs s).strict (sShape? (sabs s).store)
+      (if 0 ≤ dim then dim + 1 else dim) none with
+  | err e' => rfl
+  | set c' => rfl
+  | setErr c' e' => rfl
+  | resize c' t sz => obtain ⟨_, _, e1, _⟩ := decide_resize hD; cases e1
+
+/-- Record machine: an *add* that raises leaves every observable (constraints, observations,
+temporal configuration) unchanged. -/
+theorem record_add_refused_no_side_effect (T : TimeOps τ) (s : MState τ) (hw : MWF s) (dim : Int) (z : Int)
+    (e : Err) (hnew : s.cons.lookup (if 0 ≤ dim then dim + 1 else dim) = none)
+    (he : (step T s (.recon dim (some z))).2 = .err e) :
+    sabs (step T s (.recon dim (some z))).1 = sabs s := by
+  obtain ⟨r1, r2, _⟩ := record_step_refines T s hw (.recon dim (some z))
+  rw [r1]
+  rw [r2] at he
+  simp only [sstep, shapedReconS] at he ⊢
+  have hnew' : (sabs s).cons.lookup (if 0 ≤ dim then dim + 1 else dim) = none := hnew
+  cases hD : reconDecide (sabs s).cons (sabs s).strict (sShape? (sabs s).store)
+      (if 0 ≤ dim then dim + 1 else dim) (some z) with
+  | err e' => rfl
+  | set c' => rw [hD] at he; simp [applyS] at he
+  | setErr c' e' => obtain ⟨e1, _⟩ := decide_setErr hD; cases e1
+  | resize c' t sz =>
+    obtain ⟨_, _, _, _, _, _, _, _, _, _, e8⟩ := decide_resize hD
+    rw [hnew'] at e8; cases e8
+
+end InfernoVerif.Record
+
+/-! ## Non-vacuity: concrete states meeting the hypotheses -/
+
+namespace InfernoVerif.Record
+open InfernoVerif.Ring InfernoVerif.Shaped
+
+/-- a 3-slot ring mid-wrap: pointer 2, newest first 20, 10, 30 -/
+def exR : Ring Nat := ⟨3, 2, [10, 20, 30]⟩
+example : exR.WF := by unfold Ring.WF; decide
+example : exR.newest = [20, 10, 30] := by decide
+-- grow to 5: newest three keep their offsets, two zero slots appear behind them
+example : (exR.reconstrain0 5 0).data = [0, 0, 30, 10, 20] := by decide
+example : (exR.reconstrain0 5 0).newest = [20, 10, 30, 0, 0] := by decide
+-- shrink to 2: the two newest survive
+example : (exR.reconstrain0 2 0).newest = [20, 10] := by decide
+-- without `align(0)` the tail of the raw storage is NOT the newest data (why every pointer matters)
+example : resizeTail exR.data 2 0 = [20, 30] := by decide
+
+/-- a well-formed machine state: 3 slots, pointer 1, one user constraint on the observation dim -/
+def exS : MState Rat :=
+  { dt := 1, dur := 3, incl := false, cons := [(1, 2), (0, 3)], strict := true, param := false,
+    store := .init [2] (1, [[4, 4], [2, 2], [3, 3]]) }
+example : MWF exS := ⟨3, by decide, by decide, by decide, by decide⟩
+example : (step ratOps exS (.setDt (1/2))).2 = .unit := by decide +kernel
+example : (step ratOps exS (.setDt (1/2))).1.cons.lookup 0 = some 6 := by decide +kernel
+example : (sabs (step ratOps exS (.setDt (1/2))).1).store =
+    .init [2] [[4, 4], [3, 3], [2, 2], [0, 0], [0, 0], [0, 0]] := by decide +kernel
+example : SizeOK ratOps exS := by unfold SizeOK; decide +kernel
+-- uninitialised storage: the setter succeeds (D7) and installs the size
+example : (step ratOps { exS with store := .none } (.setDur 5)).2 = .unit := by decide +kernel
+example : (step ratOps { exS with store := .none } (.setDur 5)).1.cons.lookup 0 = some 5 := by decide +kernel
+-- the size formula on a non-integer ratio: ceil(3 / (3/4)) = 4, inclusive adds one
+example : recSize ratOps (3/4) 3 false = 4 := by decide +kernel
+example : recSize ratOps (3/4) (5/2) true = 5 := by decide +kernel
+example : recSize ratOps 1 0 false = 1 := by decide +kernel
+
+end InfernoVerif.Record
+
+namespace InfernoVerif.Shaped
+/-- a 2×3 tensor constrained on dims 0 and -1 -/
+def exT : ShState := ⟨[(0, 2), (-1, 3)], true, false, .tensor [2, 3] [1, 2, 3, 4, 5, 6]⟩
+example : exT.valid = true := by decide
+-- adding an incompatible constraint is refused, state untouched
+example : shStep exT (.recon 1 (some 5)) = (exT, .err .ValueError) := by decide
+-- strict {0, -1} needs two dimensions: a 1-d tensor is not valid although both sizes "match"
+example : (⟨[(0, 3), (-1, 3)], true, false, .tensor [3] [1, 2, 3]⟩ : ShState).valid = false := by decide
+example : (⟨[(0, 3), (-1, 3)], false, false, .tensor [3] [1, 2, 3]⟩ : ShState).valid = true := by decide
+-- editing keeps the tail / prepends zeros along the edited dimension
+example : (shStep exT (.recon (-1) (some 2))).1.val = .tensor [2, 2] [2, 3, 5, 6] := by decide
+example : (shStep exT (.recon (-1) (some 4))).1.val = .tensor [2, 4] [0, 1, 2, 3, 0, 4, 5, 6] := by decide
+-- removing never alters data
+example : (shStep exT (.recon 0 none)).1.val = exT.val := by decide
+end InfernoVerif.Shaped
